@@ -469,6 +469,15 @@ class Normaliser:
         return False
 
     def _prove_stmts(self, fseg, rseg, fs, i1, i2, ctx, in_loop, quiet):
+        memo_key = (tuple(_dump(x) for x in fseg), tuple(_dump(x) for x in rseg), i2 >= len(fs))
+        self._memo = getattr(self, "_memo", {})
+        if memo_key in self._memo:
+            why = self._memo[memo_key]
+            if why is None:
+                return True
+            if not quiet:
+                self._left(ctx["q"], why, fseg[0] if fseg else (rseg[0] if rseg else None), block=fs)
+            return False
         live = self._live_after(fseg, rseg, ctx, in_loop)
         # the run reaches the end of its block on this side (and then, by alignment, on the other): falling off it has the block's meaning
         fall = self._tail.get(id(fs)) if i2 >= len(fs) else None
@@ -491,6 +500,7 @@ class Normaliser:
             why = "outside the fragment: recursion"
         finally:
             dtable.DEADLINE[0] = None
+        self._memo[memo_key] = why
         if why is None:
             self.stats["regions_proved"] += 1
             if len(self.stats["proved"]) < 40:
